@@ -272,17 +272,29 @@ class Builder:
         axes = d(st.permutations('xyz'))[:ndim]
         leaves = []
         pitches = []
-        skew = ndim == 3 and d(st.integers(0, 3)) == 0
+        skew = ndim == 3 and d(st.integers(0, 2)) == 0
         if skew:
             self.labels.add('lat:skew3d')
-            _cls, R = d(gen.rotation(('generic', 'axis', 'identity')))
+            _cls, R = d(gen.rotation(('generic', 'axis', 'identity',
+                                      'identity', 'perm')))
             R = np.array(R).reshape(3, 3)
             shear = np.eye(3)
-            shear[0, 1] = d(st.sampled_from([0.0, 0.3, -0.4]))
-            shear[1, 2] = d(st.sampled_from([0.0, 0.25, -0.3]))
-            shear[0, 2] = d(st.sampled_from([0.0, 0.2]))
+            kind = d(st.sampled_from(['monoclinic', 'monoclinic',
+                                      'triclinic']))
+            self.labels.add('lat:' + kind)
+            if kind == 'monoclinic':
+                # exactly one pair of plane families is not orthogonal; the
+                # listing order of the pairs is shuffled below, so the odd
+                # pair can be (1,2), (2,3) or (1,3)
+                i_, j_ = d(st.sampled_from([(0, 1), (1, 2), (0, 2)]))
+                shear[i_, j_] = d(st.sampled_from([0.75, -0.4, 0.3, 1.0]))
+            else:
+                shear[0, 1] = d(st.sampled_from([0.3, -0.4]))
+                shear[1, 2] = d(st.sampled_from([0.0, 0.25, -0.3]))
+                shear[0, 2] = d(st.sampled_from([0.0, 0.2]))
             normals = (shear @ R)
             normals = normals / np.linalg.norm(normals, axis=1, keepdims=True)
+            normals = normals[list(d(st.permutations([0, 1, 2])))]
         for q, ax in enumerate(axes):
             p = d(gen.length(0.25 * scale, 0.6 * scale))
             a = d(gen.coord(0.2 * scale))
@@ -829,7 +841,7 @@ def like_case(draw, tier='quick'):
         p1 = b.add_surf('pz', [-0.8])
         p2 = b.add_surf('pz', [0.8])
         expr = md.AND(md.S(-cyl), md.S(p1), md.S(-p2))
-    base_is_container = d(st.booleans())
+    base_is_container = d(st.integers(0, 2)) == 0
     base_id = b.new_cid()
     if base_is_container:
         base = md.cell(base_id, 0, None, expr, imp={'n': 1},
@@ -864,13 +876,15 @@ def like_case(draw, tier='quick'):
             lid, 0, None, None), like={'base': ref['id'], 'but': {}})]}
         )['cells'][-1]
         if eff.get('fill') is None:
-            if d(st.booleans()):
+            how = d(st.sampled_from(['mat+rho', 'mat+rho', 'rho', 'rho',
+                                     'none']))
+            if how == 'mat+rho' or (how == 'rho' and eff['mat'] == 0):
                 m, rho = b.material()
                 if m != 0:
                     but['mat'] = m
                     but['rho'] = rho
                     b.labels.add('like:mat+rho')
-            elif eff['mat'] != 0 and d(st.booleans()):
+            elif how == 'rho':
                 _m, rho = b.material()
                 if rho is not None and not (eff['mat'] == 3
                                             and not rho.startswith('-')):
